@@ -39,6 +39,8 @@ structure RibSt where
   implPend : List Nat := []
   implRefsOk : Bool := true
   partialFlush : Bool := false
+  /-- the trace does not list the operations (concurrent runs): monitors that need them are off -/
+  blind : Bool := false
   lastHooks : List HookEv := []
   lastResolved : List (Bool × NI × Key) := []
   resolvedOn : Bool := false
@@ -162,7 +164,7 @@ def countNhRefs (ents : Map EKey Payload) (ni : NI) (n : Nat) : Nat :=
 def handleObsEnts (st : RibSt) (ents : Map EKey Payload) : RibSt :=
   let st := { st with implEnts := ents }
   -- C01 monitor: contents = fold of the implementation's own acknowledgements
-  let st := if mapEq st.spec ents then st
+  let st := if st.blind || mapEq st.spec ents then st
             else st.monfail "c01" s!"contents differ from the fold of acknowledged operations: contents={ents.length} fold={st.spec.length}"
   -- C02 monitor: closure (only while no partial flush has been used)
   let st := if st.partialFlush then st else
@@ -226,7 +228,7 @@ def handleObsPend (st : RibSt) (ids : List Nat) : RibSt :=
   let implRib : Rib := { st.model with ents := st.implEnts, pend := [] }
   let st := ids.foldl (fun st id =>
     match st.ops.get? id with
-    | none => st.monfail "c02" s!"held id {id} was never submitted"
+    | none => if st.blind then st else st.monfail "c02" s!"held id {id} was never submitted"
     | some op =>
       match implRib.classify op with
       | .hold => st
